@@ -244,7 +244,7 @@ func init() {
 		w.Online.Ob("restart-succeeds")
 		got := w.c11Capture(0)
 		for _, x := range []struct {
-			name         string
+			name        string
 			got, s1, s2 map[string]string
 		}{{"silences", got.Sils, st.S1.Sils, st.S2.Sils}, {"notification log", got.Nf, st.S1.Nf, st.S2.Nf}} {
 			w.Online.Ob("loaded-state-is-last-completed-or-in-progress-snapshot")
@@ -448,10 +448,10 @@ func c11Gen(seed uint64, tier string) *Plan {
 func init() {
 	Register(&Prop{
 		ID: "C11", Level: "fault_enumeration", Gen: c11Gen,
-		Check: func(p *Plan, r *RunResult) *Verdict { return &Verdict{} },
-		Rule: "case n = (content c, kind in {crash in a maintenance snapshot, crash in the shutdown snapshot, disk error in a maintenance snapshot followed by a kill}, point k in 0..13, power-loss outcome in {unsynced data lost, kept, torn} resp. error in {ENOSPC, EIO, short write}): every crash point of the snapshot pair (about 10 mutating file-system operations: create, write, sync, close, rename for each of the two files; k beyond the last one = crash right after completion) times every outcome is run for each content; contents have 0-60 (thorough up to 3000) silences/log entries per phase with 1-3 matcher sets, annotations, ended-but-retained silences, typed receiver data, new versions of old records in phase 2 and an API-created silence; one content in five also runs the loader on every prefix (all lengths up to 4 KiB, 600 sampled beyond) and 24 bit-flip corruptions of both snapshot files. Non-trivial: the restarted instance's state was compared with both snapshots; distinct: by (content, kind, k, outcome).",
-		Real: []string{"app.New wiring", "silence.Silences and nflog.Log (Maintenance, Snapshot, openReplace/replaceFile, loadSnapshot, decodeState, Merge)", "app start-up on an existing data directory"},
-		Stub: []string{"clock (synctest)", "disk: simfs (in-memory, journalled; power-loss model: namespace operations survive in order, file data only up to the last Sync)"},
+		Check:       func(p *Plan, r *RunResult) *Verdict { return &Verdict{} },
+		Rule:        "case n = (content c, kind in {crash in a maintenance snapshot, crash in the shutdown snapshot, disk error in a maintenance snapshot followed by a kill}, point k in 0..13, power-loss outcome in {unsynced data lost, kept, torn} resp. error in {ENOSPC, EIO, short write}): every crash point of the snapshot pair (about 10 mutating file-system operations: create, write, sync, close, rename for each of the two files; k beyond the last one = crash right after completion) times every outcome is run for each content; contents have 0-60 (thorough up to 3000) silences/log entries per phase with 1-3 matcher sets, annotations, ended-but-retained silences, typed receiver data, new versions of old records in phase 2 and an API-created silence; one content in five also runs the loader on every prefix (all lengths up to 4 KiB, 600 sampled beyond) and 24 bit-flip corruptions of both snapshot files. Non-trivial: the restarted instance's state was compared with both snapshots; distinct: by (content, kind, k, outcome).",
+		Real:        []string{"app.New wiring", "silence.Silences and nflog.Log (Maintenance, Snapshot, openReplace/replaceFile, loadSnapshot, decodeState, Merge)", "app start-up on an existing data directory"},
+		Stub:        []string{"clock (synctest)", "disk: simfs (in-memory, journalled; power-loss model: namespace operations survive in order, file data only up to the last Sync)"},
 		Assumptions: []string{"power-loss model: create/rename/remove are durable in issue order (ordered metadata journal), file data is durable only after Sync on that file; a kill without power loss is the outcome 'all written data kept'", "the two snapshot writers run one after the other at a maintenance tick (one P); the crash point indexes their combined operation sequence"},
 	})
 }
